@@ -21,5 +21,5 @@ def http_stage(res):
 
 
 def main(tier, seed, replay):
-    return seqcheck.main("C17", "Properties/C17.v", tier, seed, replay, scenarios=['pool','clock','pool','basic','midround'],
+    return seqcheck.main("C17", "Properties/C17.v", tier, seed, replay, scenarios=['pool','clock','pool','basic','midround','straddle'],
                          own_prefixes=("C17",), extra_stage=http_stage)
